@@ -157,6 +157,9 @@ class _KexRSA(Kex):
         client_conn = cast('SSHClientConnection', self._conn)
         host_key = client_conn.validate_server_host_key(self._host_key_data)
 
+        if not self.check_host_key_sig_alg(sig):
+            raise KeyExchangeFailed('Host key signature algorithm mismatch')
+
         h = self._compute_hash()
         if not host_key.verify(h, sig):
             raise KeyExchangeFailed('Key exchange hash mismatch')
